@@ -333,10 +333,26 @@ pub fn run(cx: &mut Ctx) {
             continue;
         }
         let mut rng = cx.rng.fork(idx);
-        let (cpk, csk) = na::kx_seed_keypair(&rng.arr());
-        let (spk, ssk) = na::kx_seed_keypair(&rng.arr());
+        // key pairs from libsodium, or generated by the crate's own generators (an "honestly generated pair" must be a
+        // real pair: public key = base-point multiple of the secret key)
+        let origin = ["libsodium", "crypto_kx_seed_keypair", "crypto_kx_keypair", "KeyPair::gen"][i % 4];
+        let mut gen_pair = |rng: &mut crate::prng::Rng| -> ([u8; 32], [u8; 32]) {
+            match origin {
+                "crypto_kx_seed_keypair" => dryoc::classic::crypto_kx::crypto_kx_seed_keypair(&rng.arr()).expect("kx seed keypair"),
+                "crypto_kx_keypair" => dryoc::classic::crypto_kx::crypto_kx_keypair(),
+                "KeyPair::gen" => {
+                    let kp: KeyPair<StackByteArray<32>, StackByteArray<32>> = KeyPair::gen();
+                    (*kp.public_key.as_array(), *kp.secret_key.as_array())
+                }
+                _ => na::kx_seed_keypair(&rng.arr()),
+            }
+        };
+        let (cpk, csk) = gen_pair(&mut rng);
+        let (spk, ssk) = gen_pair(&mut rng);
         cx.key_h(idx);
-        let case = || json!({"op":"kx","cpk":hx(&cpk),"csk":hx(&csk),"spk":hx(&spk),"ssk":hx(&ssk)});
+        let case = || json!({"op":"kx","key_pairs_from":origin,"cpk":hx(&cpk),"csk":hx(&csk),"spk":hx(&spk),"ssk":hx(&ssk)});
+        expect(cx, &format!("C05|{}|public_key_is_not_the_base_point_multiple_of_the_secret_key", origin), na::scalarmult_base(&csk) == cpk && na::scalarmult_base(&ssk) == spk, case);
+        cx.cover("kx_key_pair_origin", origin);
         let (mut crx, mut ctx_, mut srx, mut stx) = ([0u8; 32], [0u8; 32], [0u8; 32], [0u8; 32]);
         let rc = call(cx, "C05|crypto_kx_client_session_keys", "crypto_kx_client_session_keys", case, || crypto_kx_client_session_keys(&mut crx, &mut ctx_, &cpk, &csk, &spk));
         let rs = call(cx, "C05|crypto_kx_server_session_keys", "crypto_kx_server_session_keys", case, || crypto_kx_server_session_keys(&mut srx, &mut stx, &spk, &ssk, &cpk));
